@@ -469,6 +469,14 @@ func hostileInputs(r *core.Rand, which int) []c01Item {
 					f = append(f, 0)
 				}
 				hdr(f, 15, 205)
+			} else if r.Chance(1, 3) {
+				// a small XR frame whose single block announces far more than is there (the library clips
+				// such a block to what is present and accepts it)
+				bt := byte(r.Pick(1, 2, 3, 5, 8, 99, 255))
+				bl := r.Pick(0xFFFF, 0x7FFF, 0x1000, 0x0100)
+				f = []byte{0x80, 207, 0, 0, r.U8(), 1, 2, 3, bt, r.U8(), byte(bl >> 8), byte(bl)}
+				f = append(f, r.Bytes(4*r.Pick(1, 1, 2, 3))...)
+				gen.FitLength(f)
 			} else if e, err := ref.Encode(gen.Packet(r, gen.AnyKind(r), gen.Opts{Small: true, NoBig: true}), ref.Lib); err == nil && len(e.B) > 0 && len(e.B) <= 2048 {
 				f = e.B
 			} else {
